@@ -86,7 +86,21 @@ def run(run: common.Run):
             rh = -(-(rytop - (sytop - sh * ps)) // pr) + 2
             src = rasters.Grid(sx0, sytop, ps, ps, sw, sh, src.unit)
             ref = rasters.Grid(rx0, rytop, pr, pr, rw, rh, src.unit)
-        proc_ref = src.px <= ref.px
+        if case['i'] % 12 == 7 and not src_coarser:
+            # non-square source pixels: coarser than the reference along x, finer along y, smaller in area - the reference grid
+            # is still the processing grid and the source still reaches it by the down-sampling method (`average`)
+            pr = rng.choice([8, 16])
+            spx, spy = pr * 3 // 2, pr // 4
+            rx0, rytop = 8 * 30_000 + 3, 8 * 15_000 + 5
+            sw, sh = rng.randint(5, 9), rng.randint(24, 40)
+            sx0 = rx0 + 2 * pr + rasters.offgrid_offset(rng, 'dyadic', spx, pr)
+            sytop = rytop - 2 * pr - rng.randrange(0, pr)
+            src = rasters.Grid(sx0, sytop, spx, spy, sw, sh, rasters.Fraction(1, 8))
+            ref = rasters.Grid(rx0, rytop, pr, pr, -(-(sx0 + sw * spx - rx0) // pr) + 2, -(-(rytop - (sytop - sh * spy)) // pr) + 2,
+                               rasters.Fraction(1, 8))
+            case['halvings'], case['family'] = 0, 'dyadic'
+            run.hist['non-square source pixels'] += 1
+        proc_ref = src.px * src.py <= ref.px * ref.py
         nb = case['nb']
         if proc_ref:
             s = np.array([[[rng.randint(30, 190) for _ in range(src.w)] for _ in range(src.h)] for _ in range(nb)], float)
